@@ -181,6 +181,14 @@ func (o *Obs) Mod(name string) AcctObs       { return o.Accts[ModAddr(name).Stri
 // Observe captures the semantic state through the keepers' public read API on ctx.
 func (l *Lab) Observe(ctx sdk.Context) *Obs {
 	a := l.App
+	defer func() {
+		if p := recover(); p != nil {
+			if l.OnReadPanic != nil {
+				l.OnReadPanic(p)
+			}
+			panic(p)
+		}
+	}()
 	o := &Obs{Height: ctx.BlockHeight(), Time: ctx.BlockTime().Unix(), Accts: map[string]AcctObs{}}
 	obsAcct := func(addr sdk.AccAddress) {
 		ao := AcctObs{Bal: a.BankKeeper.GetAllBalances(ctx, addr), Spendable: a.BankKeeper.SpendableCoins(ctx, addr)}
